@@ -49,7 +49,7 @@ def build_all():
 
 
 # ------------------------------------------------------------------------------------------------ forms from the spec
-_re_form = re.compile(r'<<\s*"FORM",\s*(<<[\d,\s]*>>),\s*"(\w+)",\s*"(\w+)",\s*(TRUE|FALSE)\s*>>')
+_re_form = re.compile(r'<<\s*"FORM",\s*(<<[\d,\s]*>>),\s*"(\w+)",\s*"(\w+)",\s*(TRUE|FALSE),\s*(TRUE|FALSE)\s*>>')
 
 
 def gen_forms():
@@ -57,7 +57,7 @@ def gen_forms():
     forms = []
     for m in _re_form.finditer(r["out"]):
         codes = bytes(int(x) for x in re.findall(r"\d+", m.group(1)))
-        forms.append({"v": codes, "kn": m.group(2), "kk": m.group(3), "small": m.group(4) == "TRUE"})
+        forms.append({"v": codes, "kn": m.group(2), "kk": m.group(3), "small": m.group(4) == "TRUE", "quick": m.group(5) == "TRUE"})
     if len(forms) < 100:
         raise vlib.InfraError("TLC produced no value forms:\n" + r["out"][-3000:])
     forms.sort(key=lambda f: f["v"])
@@ -317,8 +317,10 @@ def run(tier, seed):
     junk = [f for f in usable if f["kk"] == "malformed"]
     nums = [f for f in usable if f["kk"] == "num"]
     if q:
-        sel = {"rel": bools + junk + rng.sample(nums, 110), "asan": rng.sample(bools, 10) + rng.sample(junk, 14) + rng.sample(nums, 50),
-               "dbg": rng.sample(bools, 6) + rng.sample(junk, 8) + rng.sample(nums, 20)}
+        always = [f for f in usable if f["quick"]]
+        rest = [f for f in usable if not f["quick"]]
+        sel = {"rel": always + rng.sample(rest, 100), "asan": rng.sample(always, 140) + rng.sample(rest, 30),
+               "dbg": rng.sample(always, 40) + rng.sample(rest, 10)}
     else:
         sel = {"rel": usable, "asan": usable, "dbg": bools + junk + rng.sample(nums, 400)}
 
@@ -420,17 +422,25 @@ def run(tier, seed):
     for p in R.procs:
         kinds[p["build"] + "/" + p["kind"]] = kinds.get(p["build"] + "/" + p["kind"], 0) + 1
     nonzero = [p for p in R.procs if p.get("rc", 0) != 0]
-    sample_proc = next((p for p in R.procs if p["kind"] == "all" and p["build"] == "rel"), R.procs[0])
+    def rows_of(p, want, n):
+        out = []
+        for l in open(p["path"]):
+            if any(w in l for w in want):
+                out.append(l.strip()[:260])
+                if len(out) >= n:
+                    break
+        return out
     samples = []
-    for l in open(sample_proc["path"]):
-        if '"k":"start"' in l or ('"k":"get"' in l and len(samples) < 4):
-            samples.append(l.strip()[:500])
-    jp = next((p for p in R.procs if p["kind"] == "json"), None)
-    if jp:
-        samples += vlib.sample_lines(jp["path"], 3)[1:]
-    fp_ = next((p for p in R.procs if p["kind"] == "fmt"), None)
-    if fp_:
-        samples += [l[:300] for l in vlib.sample_lines(fp_["path"], 2, 300)[1:]]
+    for kind, want, n in (("all", ('"opt":"purge_delay"', '"opt":"arena_reserve"'), 4), ("long", ('"src":"env"',), 2), ("script", ('"k":"op"', '"k":"clamp"'), 4),
+                          ("json", ('"size":100,', '"size":0,'), 3), ("print", ('"k":"chunk"',), 3), ("fmt", ('"k":"fmt"', '"k":"bufout"'), 1)):
+        cands = [p for p in R.procs if p["kind"] == kind and p["build"] == "rel"]
+        if cands:
+            p = cands[len(cands) // 2]
+            samples.append({"process": "%s build, %s" % (p["build"], p["desc"][:160]), "exit_status": p.get("rc"), "rows": rows_of(p, want, n)})
+    sp = [f for f in sorted(os.listdir(od)) if f.startswith("s_rel_")]
+    if sp:
+        samples.append({"script": open(os.path.join(od, sp[-1])).read().split("\n")[:14]})
+    samples.append({"formats": ["%s  (%s; args %s)" % (f, w, ",".join(ty)) for f, w, ty in fmt_meta[10:14]]})
     cov = {
         "states": mc["distinct"], "transitions": mc["generated"], "mc_depth": mc["depth"], "mc_config": mc_cfg,
         "traces_validated_against_impl": len(R.procs), "rows_validated": consumed, "rows_total": total,
